@@ -677,7 +677,7 @@ impl Prop for C14 {
         "C14"
     }
     fn rule(&self) -> &'static str {
-        "generated frame tables: 1-3 CIEs (some identical or unreferenced) x 0-8 FDEs; CIE versions 1/3/4 for .debug_frame and 1 (occasionally an unsupported 3) for .eh_frame, 32/64-bit, address size 4/8, code alignment 1-255, data alignment -128..127 incl. 0, personality / LSDA / FDE-address encodings (absptr, pcrel, sized formats, uleb128/sleb128, indirect) with values on both sides of the LEB128 sign-bit and size steps, signal trampoline, return-address registers around 127/128/255; FDE instruction lists over every write::CallFrameInstruction variant with offsets on and off the data-alignment grid, code offsets spanning 0x3f/0x40, 0xff/0x100, 0xffff/0x10000 after factoring and off the code-alignment grid. Oracle: read back with gimli's frame readers: same CIE parameters, FDE ranges, personality/LSDA pointers; identical CIEs emitted once and unreferenced ones not at all; length field + length a multiple of the address size; UnwindTable rows equal the call-frame state machine (cfimodel.rs) run on the supplied instruction list at the supplied code offsets; off-grid offsets / unsupported versions must be refused. Non-trivial = FDE with >=3 instructions at >=2 distinct offsets and a negative offset operand; distinct by choice string."
+        "generated frame tables: 1-3 CIEs (some identical or unreferenced) x 0-8 FDEs; CIE versions 1/3/4 for .debug_frame and 1 (occasionally an unsupported 3) for .eh_frame, 32/64-bit, address size 4/8, code alignment 1-255, data alignment -128..127 incl. 0, personality / LSDA / FDE-address encodings (absptr, pcrel, sized formats, uleb128/sleb128, indirect) with values on both sides of the LEB128 sign-bit and size steps, signal trampoline, return-address registers around 127/128/255; FDE instruction lists over every write::CallFrameInstruction variant with offsets on and off the data-alignment grid, code offsets spanning 0x3f/0x40, 0xff/0x100, 0xffff/0x10000 after factoring and off the code-alignment grid. Oracle: read back with gimli's frame readers: same CIE parameters, FDE ranges, personality/LSDA pointers; identical CIEs emitted once and unreferenced ones not at all; length field + length a multiple of the address size; UnwindTable rows equal the call-frame state machine (cfimodel.rs) run on the supplied instruction list at the supplied code offsets; off-grid offsets / unsupported versions must be refused. Non-trivial = FDE with >=3 instructions at >=2 distinct offsets and a negative offset operand; distinct by choice string. Later additions: pcrel udata2/udata4 pointer encodings; FDE addresses around 2^31 and 2^32; cie_count / fde_count."
     }
     fn assumptions(&self) -> Vec<&'static str> {
         vec![
